@@ -125,6 +125,12 @@ def build():
     one(r"if\s+provided\.len\(\)\s*<\s*self\.min_mac_len\s*\{\s*return\s+Err\(ValidationError::BadTrunc\);", cs, "compare_signatures floor")
     one(r"let\s+expected\s*=\s*if\s+provided\.len\(\)\s*<\s*expected\.as_ref\(\)\.len\(\)\s*\{\s*&expected\.as_ref\(\)\[\.\.provided\.len\(\)\]\s*\}\s*else\s*\{\s*expected\.as_ref\(\)\s*\}", cs, "compare_signatures truncation")
     one(r"if\s+!constant_time_eq\(expected,\s*provided\)\s*\{\s*return\s+Err\(ValidationError::BadSig\);", cs, "compare_signatures compare")
+    csn = re.sub(r"\s+", "", cs)
+    size_chk = "if!self.algorithm().within_len_bounds(provided.len()){returnErr(ValidationError::FormErr);}"
+    trunc_chk = "ifprovided.len()<self.min_mac_len{returnErr(ValidationError::BadTrunc);}"
+    if csn.startswith(size_chk + trunc_chk): defs.append(("compare_checks_rfc_size", "bool", "true"))
+    elif csn.startswith(trunc_chk): defs.append(("compare_checks_rfc_size", "bool", "false"))
+    else: raise GenError("compare_signatures: unrecognised sequence of length checks")
     sl = fn_body(src, "signature_slice", after="impl Key")
     one(r"^\s*&signature\.as_ref\(\)\[\.\.self\.signing_len\]\s*$", sl, "signature_slice")
     defs.append(("compare_signatures_checked", "bool", "true"))
@@ -157,6 +163,11 @@ def build():
         raise GenError("server error mapping arms %r" % arms)
     defs.append(("server_code_badtrunc", "N", "RC_%s" % arms["ValidationError::BadTrunc"]))
     defs.append(("server_code_badsig", "N", "RC_%s" % arms.get("ValidationError::BadSig", arms.get("_"))))
+    if "_" not in arms and "ValidationError::FormErr" not in arms:
+        raise GenError("server error mapping: no arm for the remaining errors")
+    defs.append(("server_code_other", "N", "RC_%s" % arms.get("ValidationError::FormErr", arms.get("_"))))
+    if arms.get("ValidationError::BadKey", arms.get("_")) != "BADKEY":
+        raise GenError("server error mapping: BadKey arm")
     i_mac = sr.find("compare_signatures"); i_time = sr.find("is_valid_at(now)"); i_apply = sr.find("context.apply_signature(")
     if not (0 <= i_mac < i_apply < i_time):
         raise GenError("server_request: expected MAC check, apply_signature, time check in this order")
